@@ -303,7 +303,7 @@ class Driven:
     async def event(self, ev):
         p = self.peer
         if ev == "resume":
-            if self.sess.pending:
+            if self.sess.pending and not self.sess.pending[0].done():
                 self.sess.pending[0].set_result(None)
         elif ev == "block":
             p.t.block()
